@@ -111,8 +111,11 @@ def ref_classify(is_time, text):
             hv = int(hd.lstrip("0")[:6] or "0") if len(hd.lstrip("0")) <= 6 else 10 ** 6
             r.sign, r.hours, r.minutes = sg, hv, mmv
             off_min = (60 * hv + mmv) * (-1 if sg == "-" else 1)
-            if len(hd) > 4300 or not (-720 <= off_min <= 840):
-                kind = "dontcare"
+            if hv > (12 if sg == "-" else 14):
+                r.why = "offset-hours"          # the notation's hours are -12 .. +14
+                return r
+            if len(hd) > 4300:
+                kind = "dontcare"               # CPython's int() limit
     if is_time:
         inst = ((h * 3600 + mi * 60 + s) * 1000 + ms - off_min * 60000) % 86400000
     else:
@@ -498,19 +501,18 @@ def run(ctx):
     conv = {("dt", False): DateTime(), ("dt", True): DateTime(required=True),
             ("tm", False): Time(), ("tm", True): Time(required=True)}
 
-    # ---- the \d table of the model against the running interpreter (all code points) ----
-    dre = re.compile(r"\d")
-    digs = [cp for cp in range(0x110000) if dre.match(chr(cp))]
-    zeros = [cp for cp in digs if int(chr(cp)) == 0]
-    alld = len(digs) if all(int(chr(z + i)) == i for z in zeros for i in range(10)) else -1
-    rep = ctx.model.ask(["dt.ndzeros"])[0]
-    got = [int(x) for x in rep.vals[0]] if rep.ok else rep.raw
-    ctx.evaluations += 1
-    if got != zeros or alld != 10 * len(zeros):
-        ctx.disagree("dt.ndzeros", {"op": "dt.ndzeros"}, zeros, got)
-
     # ---- texts -------------------------------------------------------------------------
     tcases = build_text_cases(ctx)
+    # witnesses of every recorded C09 finding (known or fixed) are always replayed
+    try:
+        import json, os, framework
+        with open(os.path.join(framework.ROOT, "known_findings.json")) as f:
+            for e in json.load(f)["findings"]:
+                w = e.get("witness") or {}
+                if e.get("property") == "C09" and "text" in w:
+                    tcases.append((w["op"].startswith("tm"), bool(w.get("required")), w["text"]))
+    except Exception as ex:      # the registry is optional for the correspondence itself
+        ctx.notes.append(f"known_findings.json not replayed: {ex}")
     lines, spec_lines = [], []
     for is_time, req, text in tcases:
         lines.append(f"{'tm' if is_time else 'dt'}.conv {_b(req)} (s {S(text)})")
@@ -534,7 +536,7 @@ def run(ctx):
             ctx.sample({"case": case, "impl": impl, "model": model})
         # Lean spec against the reference
         ctx.evaluations += 1
-        want = ref.instant if ref.kind in ("in", "dontcare") and -720 <= ref.offmin <= 840 else None
+        want = ref.instant if ref.kind in ("in", "dontcare") else None
         got = (None if srep.vals[0] == "none" else int(srep.vals[0][1])) if srep.ok else srep.raw
         if got != want:
             ctx.disagree("spec.innotation-vs-reference", case, want, got)
@@ -622,6 +624,9 @@ def run(ctx):
             ctx.violate(ty + "_write_refuses_aware", case, f"{op}({v!r}) -> {r}", detail)
             continue
         text = r[1]
+        if not (-720 <= off_min <= 840):
+            ctx.stat("unconv:outside-domain:offset-beyond-12..14")
+            continue
         ref = ref_classify(is_time, text)
         head_ok = re.match((r"[0-9]{6}" if is_time else r"[0-9]{14}") + r"\.[0-9]{3}\[", text) is not None and text.endswith("]")
         mo_ = re.match(r"([+-])(0|[1-9][0-9]*)(?:\.([0-9]{2}))?(?::(.*))?\Z", text[text.index("[") + 1:-1], re.S) if head_ok else None
@@ -632,9 +637,6 @@ def run(ctx):
             ctx.violate(ty + "_writes_wrong_text", case,
                         f"{op}({v!r}) -> {text!r}: not the canonical text of instant {want_ms} ms at offset {off_min} min "
                         f"(the text denotes {ref.instant}, {ref.kind} {ref.why})", detail)
-            continue
-        if not (-720 <= off_min <= 840):
-            ctx.stat("unconv:outside-domain:offset-beyond-12..14")
             continue
         if not is_time and not (MIN_MS <= want_ms < END_MS):
             ctx.stat("unconv:outside-domain:utc-year")
